@@ -27,6 +27,12 @@ def Mesh.reverseCell (cid : Id) (m : Mesh) : Mesh := m.mapCell cid Cell.reverse
     another order) -/
 def Mesh.permuteCells (cells' : List (Id × Cell)) (m : Mesh) : Mesh := { m with cells := cells' }
 
+/-- the vertex dictionary replaced by `vs'` (the theorems assume `vs'.Perm m.vertices` and unique keys) -/
+def Mesh.permuteVertices (vs' : List (Id × Vertex)) (m : Mesh) : Mesh := { m with vertices := vs' }
+
+/-- the mesh-edge dictionary replaced by `es'` (ANY `es'`: the matrix path never reads it) -/
+def Mesh.permuteEdges (es' : List (Id × SEdge)) (m : Mesh) : Mesh := { m with edges := es' }
+
 /-- the same set of interfaces up to the direction each one is stored in -/
 def SameInterfaces (l₁ l₂ : List (List Id)) : Prop := ∀ p, memRev p l₁ ↔ memRev p l₂
 
@@ -527,6 +533,228 @@ theorem residSq_relabel_rev (inp inp' : FMInput) (earr earr' used used' σ : Lis
     · rfl
     · exact hτ u
   rw [hcand]
+
+/-! ### the model's own unknowns and junctions (no angle limit) -/
+
+theorem map_getD_range (earr : List (List Id)) :
+    (List.range earr.length).map (fun i => earr.getD i []) = earr := by
+  apply List.ext_getElem?
+  intro i
+  by_cases hi : i < earr.length
+  · simp [hi, List.getD_eq_getElem?_getD]
+  · rw [List.getElem?_eq_none_iff.mpr (by simp; omega), List.getElem?_eq_none_iff.mpr (by omega)]
+
+/-- the unknowns are a sub-list of the interface list (any angle limit) -/
+theorem used_sublist (inp : FMInput) (earr : List (List Id)) : (inp.used earr).Sublist earr := by
+  unfold FMInput.used
+  refine List.Sublist.trans List.filter_sublist ?_
+  unfold Mesh.internalIdx
+  have h := (List.filter_sublist (l := List.range earr.length)
+    (p := fun i => !((inp.mesh.externalEdgesId earr).contains i) && inp.mesh.endJunction3 (earr.getD i []))).map
+    (fun i => earr.getD i [])
+  rwa [map_getD_range] at h
+
+theorem nodupRev_sublist (l l' : List (List Id)) (h : l'.Sublist l) (hl : NodupRev l) : NodupRev l' :=
+  List.Pairwise.sublist h hl
+
+/-- without an angle limit the unknowns are exactly the non-external interfaces -/
+theorem mem_used_no_limit (inp : FMInput) (earr : List (List Id)) (hE : earr.Nodup) (hcl : inp.cosLimit = none)
+    (u : List Id) : u ∈ inp.used earr ↔ u ∈ earr ∧ inp.mesh.bigEdgeExternal u = false := by
+  rw [used_eq_usedIdx', usedIdx_no_limit inp earr hcl, List.mem_map]
+  constructor
+  · rintro ⟨i, hi, rfl⟩
+    have hlt : i < earr.length := by
+      unfold Mesh.internalIdx at hi
+      simp only [List.mem_filter, List.mem_range] at hi
+      exact hi.1
+    refine ⟨?_, internal_not_external _ _ hE i hi⟩
+    rw [List.getD_eq_getElem?_getD, List.getElem?_eq_getElem hlt, Option.getD_some]
+    exact List.getElem_mem _
+  · rintro ⟨hu, hext⟩
+    obtain ⟨i, hi, rfl⟩ := List.getElem_of_mem hu
+    have hg : earr.getD i [] = earr[i] := by
+      rw [List.getD_eq_getElem?_getD, List.getElem?_eq_getElem hi, Option.getD_some]
+    exact ⟨i, mem_internalIdx_of_not_external _ _ i hi (by rw [hg]; exact hext), hg⟩
+
+theorem sameInterfaces_used (inp inp' : FMInput) (hv : inp'.mesh.vertices = inp.mesh.vertices)
+    (hcl : inp.cosLimit = none) (hcl' : inp'.cosLimit = none) (hS : SameInterfaces inp'.earr inp.earr) :
+    SameInterfaces inp'.build.used inp.build.used := by
+  intro p
+  have hE : inp.earr.Nodup := dedup_nodup _
+  have hE' : inp'.earr.Nodup := dedup_nodup _
+  have hext : ∀ e, inp'.mesh.bigEdgeExternal e = inp.mesh.bigEdgeExternal e :=
+    fun e => congrFun (bigEdgeExternal_congr _ _ hv) e
+  have key : ∀ (i : FMInput) (hc : i.cosLimit = none), memRev p i.build.used ↔
+      (memRev p i.earr ∧ i.mesh.bigEdgeExternal p = false) := by
+    intro i hc
+    unfold memRev
+    rw [build_used, mem_used_no_limit i i.earr (dedup_nodup _) hc, mem_used_no_limit i i.earr (dedup_nodup _) hc,
+      bigEdgeExternal_reverse]
+    constructor
+    · rintro (⟨h1, h2⟩ | ⟨h1, h2⟩)
+      · exact ⟨Or.inl h1, h2⟩
+      · exact ⟨Or.inr h1, h2⟩
+    · rintro ⟨h1 | h1, h2⟩
+      · exact Or.inl ⟨h1, h2⟩
+      · exact Or.inr ⟨h1, h2⟩
+  rw [key inp' hcl', key inp hcl, hext, hS p]
+
+theorem nodup_eraseDups {β : Type} [BEq β] [LawfulBEq β] (l : List β) : l.eraseDups.Nodup := by
+  induction h : l.length using Nat.strong_induction_on generalizing l with
+  | _ n ih =>
+    cases l with
+    | nil => simp
+    | cons a as =>
+      rw [List.eraseDups_cons, List.nodup_cons]
+      refine ⟨?_, ?_⟩
+      · rw [List.mem_eraseDups]; simp
+      · subst h
+        exact ih _ (Nat.lt_succ_of_le (List.length_filter_le _ _)) _ rfl
+
+theorem mem_endsOf_iff (es : List (List Id)) (v : Id) :
+    v ∈ endsOf es ↔ ∃ e ∈ es, e.head? = some v ∨ e.getLast? = some v := by
+  unfold endsOf
+  rw [List.mem_eraseDups]
+  simp only [List.mem_flatten, List.mem_map]
+  constructor
+  · rintro ⟨_, ⟨e, he, rfl⟩, hv⟩
+    refine ⟨e, he, ?_⟩
+    simpa [List.mem_append, Option.mem_toList] using hv
+  · rintro ⟨e, he, hv⟩
+    refine ⟨_, ⟨e, he, rfl⟩, ?_⟩
+    simpa [List.mem_append, Option.mem_toList] using hv
+
+/-- the junction lists of two column lists holding the same interfaces up to direction are permutations of each other -/
+theorem endsOf_perm (A B : List (List Id)) (h : SameInterfaces A B) : (endsOf A).Perm (endsOf B) := by
+  have hdir : ∀ A B : List (List Id), SameInterfaces A B → ∀ v, v ∈ endsOf A → v ∈ endsOf B := by
+    intro A B h v hv
+    rw [mem_endsOf_iff] at hv ⊢
+    obtain ⟨e, he, hv⟩ := hv
+    rcases (h e).1 (Or.inl he) with h1 | h1
+    · exact ⟨e, h1, hv⟩
+    · refine ⟨e.reverse, h1, ?_⟩
+      rw [List.head?_reverse, List.getLast?_reverse]
+      exact hv.symm
+  have hn : ∀ L : List (List Id), (endsOf L).Nodup := fun L => nodup_eraseDups _
+  rw [List.perm_ext_iff_of_nodup (hn A) (hn B)]
+  intro v
+  exact ⟨hdir A B h v, hdir B A (fun p => (h p).symm) v⟩
+
+/-- END TO END (no angle limit): an input with the same vertices whose interface list holds the same interfaces up to
+    direction, and whose centres travel with the interfaces, has the same unknowns and junctions up to order and
+    direction, and the same least-squares objective as a function of the tension per interface -/
+theorem residSq_storage_model (inp inp' : FMInput)
+    (hv : inp'.mesh.vertices = inp.mesh.vertices) (hig : inp'.ignoreFour = inp.ignoreFour)
+    (hcl : inp.cosLimit = none) (hcl' : inp'.cosLimit = none)
+    (hS : SameInterfaces inp'.earr inp.earr)
+    (hc : inp.centers.length = inp.earr.length)
+    (ρ : List (List Id × Pt)) (hρ : ρ.Perm (List.zip inp'.earr inp'.centers))
+    (hρR : List.Forall₂ (fun a b => (a.1 = b.1 ∨ a.1 = b.1.reverse) ∧ a.2 = b.2) ρ (List.zip inp.earr inp.centers))
+    (hends : ∀ u ∈ inp.build.used, u.head? ≠ u.getLast?)
+    (len : Id → List Id → Rat) (τ : List Id → Rat) (μ : Rat)
+    (hτ : ∀ e, τ e.reverse = τ e) (hlen : ∀ v e, len v e.reverse = len v e) :
+    (∃ σ : List (List Id), σ.Perm inp'.build.used ∧
+      List.Forall₂ (fun s u => s = u ∨ s = u.reverse) σ inp.build.used) ∧
+    (endsOf inp'.build.used).Perm (endsOf inp.build.used) ∧
+    residSq (augmented (normalisedMatrix inp' (fun v c => len v (inp'.build.used.getD c [])))).1
+        (augmented (normalisedMatrix inp' (fun v c => len v (inp'.build.used.getD c [])))).2
+        (inp'.build.used.map τ ++ [μ])
+      = residSq (augmented (normalisedMatrix inp (fun v c => len v (inp.build.used.getD c [])))).1
+        (augmented (normalisedMatrix inp (fun v c => len v (inp.build.used.getD c [])))).2
+        (inp.build.used.map τ ++ [μ]) := by
+  have hE : inp.earr.Nodup := dedup_nodup _
+  have hE' : inp'.earr.Nodup := dedup_nodup _
+  have hN : NodupRev inp.earr := dedup_pairwise _
+  have hN' : NodupRev inp'.earr := dedup_pairwise _
+  have hSu := sameInterfaces_used inp inp' hv hcl hcl' hS
+  have hNu : NodupRev inp.build.used := nodupRev_sublist _ _ (used_sublist inp inp.earr) hN
+  have hNu' : NodupRev inp'.build.used := nodupRev_sublist _ _ (used_sublist inp' inp'.earr) hN'
+  have hu : inp.build.used.Nodup := hNu.imp fun h => h.1
+  have hu' : inp'.build.used.Nodup := hNu'.imp fun h => h.1
+  have hσ := map_pick_perm inp'.build.used inp.build.used hNu' hNu hSu
+  have hσR := forall₂_pick inp'.build.used inp.build.used
+  have ht := endsOf_perm _ _ hSu
+  refine ⟨⟨_, hσ, hσR⟩, ht, ?_⟩
+  have hR := colRel_of_zip inp inp' inp.earr inp'.earr inp.build.used inp'.build.used _ hE hE' hN' hc ρ hρ hρR
+    (fun u hu => (used_sublist inp inp.earr).subset hu) (fun s hs => (used_sublist inp' inp'.earr).subset hs) hσ hσR
+  rw [C07m.matrixOf_build inp' len, C07m.matrixOf_build inp len]
+  exact residSq_relabel_rev inp inp' inp.earr inp'.earr inp.build.used inp'.build.used _ _ _ len τ μ hv hig hE hE'
+    hu hu' hσ hR hends hτ hlen ht
+
+/-! ### the vertex and mesh-edge dictionaries in another order -/
+
+theorem keysNodup_iff {β : Type} (l : List (Id × β)) : Mesh.keysNodup l = true ↔ (l.map Prod.fst).Nodup := by
+  induction l with
+  | nil => simp [Mesh.keysNodup]
+  | cons p l ih =>
+    obtain ⟨k, v⟩ := p
+    simp only [Mesh.keysNodup, Bool.and_eq_true, Bool.not_eq_true', List.map_cons, List.nodup_cons, ih]
+    constructor
+    · rintro ⟨h1, h2⟩
+      refine ⟨?_, h2⟩
+      intro hm
+      obtain ⟨q, hq, hqk⟩ := List.mem_map.1 hm
+      have : l.any (fun p => p.1 == k) = true := List.any_eq_true.2 ⟨q, hq, by simp [hqk]⟩
+      rw [h1] at this; exact absurd this (by simp)
+    · rintro ⟨h1, h2⟩
+      refine ⟨?_, h2⟩
+      cases h : l.any (fun p => p.1 == k) with
+      | false => rfl
+      | true =>
+        obtain ⟨q, hq, hqk⟩ := List.any_eq_true.1 h
+        exact absurd (List.mem_map.2 ⟨q, hq, by simpa using hqk⟩) h1
+
+theorem alGet?_some_iff {β : Type} (l : List (Id × β)) (hk : (l.map Prod.fst).Nodup) (k : Id) (v : β) :
+    alGet? k l = some v ↔ (k, v) ∈ l := by
+  induction l with
+  | nil => simp [alGet?]
+  | cons p l ih =>
+    obtain ⟨k', v'⟩ := p
+    simp only [List.map_cons, List.nodup_cons] at hk
+    simp only [alGet?]
+    split
+    · next h =>
+      subst h
+      simp only [Option.some.injEq, List.mem_cons, Prod.mk.injEq, true_and]
+      constructor
+      · intro h; exact Or.inl h.symm
+      · rintro (h | h)
+        · exact h.symm
+        · exact absurd (List.mem_map.2 ⟨_, h, rfl⟩) hk.1
+    · next h =>
+      rw [ih hk.2]
+      simp only [List.mem_cons, Prod.mk.injEq]
+      constructor
+      · intro hm; exact Or.inr hm
+      · rintro (⟨h1, _⟩ | hm)
+        · exact absurd h1 h
+        · exact hm
+
+theorem alGet?_perm {β : Type} (l l' : List (Id × β)) (hp : l'.Perm l) (hk : Mesh.keysNodup l = true) (k : Id) :
+    alGet? k l' = alGet? k l := by
+  have hn : (l.map Prod.fst).Nodup := (keysNodup_iff l).1 hk
+  have hn' : (l'.map Prod.fst).Nodup := (hp.map _).nodup_iff.2 hn
+  apply Option.ext
+  intro v
+  rw [alGet?_some_iff l hn, alGet?_some_iff l' hn', hp.mem_iff]
+
+/-- `_build_matrix` reads the mesh only through the vertex look-up and the cell dictionary -/
+theorem build_congr (inp inp' : FMInput) (hvx : ∀ k, inp'.mesh.vertex? k = inp.mesh.vertex? k)
+    (hcells : inp'.mesh.cells = inp.mesh.cells) (hcen : inp'.centers = inp.centers)
+    (hcl : inp'.cosLimit = inp.cosLimit) (hig : inp'.ignoreFour = inp.ignoreFour) : inp'.build = inp.build := by
+  have h1 : inp'.mesh.ownCells = inp.mesh.ownCells := by funext k; unfold Mesh.ownCells; rw [hvx]
+  have h2 : inp'.mesh.ownEdges = inp.mesh.ownEdges := by funext k; unfold Mesh.ownEdges; rw [hvx]
+  have h3 : inp'.mesh.pt = inp.mesh.pt := by funext k; unfold Mesh.pt; rw [hvx]
+  have h4 : inp'.mesh.isJunction = inp.mesh.isJunction := by funext k; unfold Mesh.isJunction; rw [h2]
+  have h5 : inp'.mesh.bigEdgesList = inp.mesh.bigEdgesList := by unfold Mesh.bigEdgesList; rw [h4, hcells]
+  unfold FMInput.build FMInput.earr FMInput.used FMInput.deletes FMInput.vertexEquation FMInput.exceeds FMInput.vecAt
+    Mesh.internalIdx Mesh.externalEdgesId Mesh.borderEdges Mesh.bigEdgeExternal Mesh.endJunction3
+  simp only [h1, h3, h5, hcen, hcl, hig]
+
+theorem normalisedMatrix_congr (inp inp' : FMInput) (h : inp'.build = inp.build) (len : Id → Nat → Rat) :
+    normalisedMatrix inp' len = normalisedMatrix inp len := by
+  unfold normalisedMatrix rowX rowY
+  rw [h]
 
 end C07o
 end Forsys
